@@ -970,6 +970,17 @@ func nestedThroughCallees(c *Ctx, fns []*ssa.Function) ([]lockEdge, []reentry) {
 	sum := acquireSummaries(c)
 	var edges []lockEdge
 	var re []reentry
+	// Two shared acquisitions of one RWMutex by one goroutine are no exception once anything takes the mutex
+	// exclusively: a writer that arrives between them waits for the first and blocks the second (sync.RWMutex
+	// prohibits recursive read locking for that reason).
+	writeLocked := map[string]bool{}
+	for _, list := range sum {
+		for _, m := range list {
+			if m.write {
+				writeLocked[m.key] = true
+			}
+		}
+	}
 	for _, fn := range fns {
 		ir.EachInstr(fn, func(_ *ssa.BasicBlock, _ int, in ssa.Instruction) {
 			call, ok := in.(*ssa.Call)
@@ -1002,7 +1013,7 @@ func nestedThroughCallees(c *Ctx, fns []*ssa.Function) ([]lockEdge, []reentry) {
 						edges = append(edges, lockEdge{h, m.key, in})
 						continue
 					}
-					if !hs.Write && !m.write {
+					if !hs.Write && !m.write && !writeLocked[h] {
 						continue
 					}
 					// same key: the same object?
